@@ -224,11 +224,26 @@ func loadFindings() []Finding {
 func (c *Ctx) matchFinding(key string) *Finding {
 	for i := range c.findings {
 		f := &c.findings[i]
-		if f.Kind == "finding" && f.Property == c.ID && f.Key == key {
+		if f.Kind == "finding" && f.Property == c.ID && keyMatches(f.Key, key) {
 			return f
 		}
 	}
 	return nil
+}
+
+// keyMatches compares class keys segment by segment ("/"-separated); a "*"
+// segment in the listed key stands for exactly one arbitrary segment.
+func keyMatches(listed, key string) bool {
+	a, b := strings.Split(listed, "/"), strings.Split(key, "/")
+	if len(a) != len(b) {
+		return false
+	}
+	for i := range a {
+		if a[i] != "*" && a[i] != b[i] {
+			return false
+		}
+	}
+	return true
 }
 
 // HasFinding tells generators whether a class is a listed known finding.
